@@ -35,7 +35,9 @@ META = {
                   "(embedding by tensor re-indexing). Template leaves are not used (only gates, Hermitian, Projector, QubitUnitary): "
                   "templates' own matrices belong to C01/C14. Expressions whose reference has entries > 1e6 are skipped (ill-scaled). "
                   "Tolerance 1e-9*max(1,|R|) (x200 with expm / fractional powers); below a simplify node 1e-7*max(1,|R|) because simplify "
-                  "snaps angles with allclose(atol=1e-8) by design.",
+                  "snaps angles with allclose(atol=1e-8) by design. change_op_basis only occurs in the forced special paths (not in the random "
+                  "generator); qp.evolve likewise. Mechanism tags of known defect families are assigned only when a numeric model of the "
+                  "defect (or, for hash grouping, a counterfactual rebuild with non-reducing hashes) reproduces the observed matrix.",
     "shards": {"quick": 4, "thorough": 16},
     "budget_s": {"quick": 150, "thorough": 300},
     "min_evals": {"quick": 1500, "thorough": 30000},
